@@ -66,9 +66,10 @@ structure Exec where
   args : Env
   deriving Repr
 
-/-- `envParam` = the parameter named by `command.environment: "%(p)s"` (if the component has that field) -/
+/-- `envParam` = the parameter named by `command.environment: "%(p)s"` (if the component has that field);
+`replicate` = text of `workflowAttributes.replicate` (absent = `none`), `aggregate` = `workflowAttributes.aggregate` -/
 inductive Body where
-  | component (arguments : Val) (envParam : Option Name)
+  | component (arguments : Val) (envParam : Option Name) (replicate : Option S) (aggregate : Bool)
   | workflow (steps : List (Name × Name)) (execute : List Exec)
   deriving Repr
 
@@ -84,7 +85,7 @@ structure Template where
 def Template.isWf (t : Template) : Bool :=
   match t.body with
   | .workflow _ _ => true
-  | .component _ _ => false
+  | .component .. => false
 
 /-- `templates` in the lookup order of `Namespace.get_template` (components, then workflows);
 `userVars` = the `global` user variables handed to the configuration layer (empty when the compiler is called
@@ -208,6 +209,15 @@ def checkExec (ns : Namespace) (avail : List Name) (w : Template) (steps : List 
       else if callee.params.any (fun p => (e.args.lookup p.name).isNone && p.default.isNone) then none
       else some callee
 
+def replicaName : Name := "replica".toList
+
+/-- `workflowAttributes.replicate not in ["0", 0, "", None]` -/
+def replicates : Option S → Bool
+  | none => false
+  | some s => s != "0".toList && s != []
+
+/-- `replicate` / `aggregate` = attributes of the component template, `declaresReplica` = the template's signature
+has a parameter called `replica` -/
 structure Inst where
   loc : Loc
   dsl : ErrLoc
@@ -215,6 +225,9 @@ structure Inst where
   params : Env
   arguments : Val
   envParam : Option Name := none
+  replicate : Bool := false
+  aggregate : Bool := false
+  declaresReplica : Bool := false
   deriving Repr
 
 structure Acc where
@@ -275,7 +288,8 @@ def visit (ns : Namespace) : Nat → List Name → Loc → Template → Env → 
   | 0, _, _, _, _, _ => { fuelOut := true }
   | fuel + 1, avail, loc, t, env, dsl =>
     match t.body with
-    | .component arguments envParam => { insts := [⟨loc, dsl, t.idx, env, arguments, envParam⟩] }
+    | .component arguments envParam rep agg =>
+      { insts := [⟨loc, dsl, t.idx, env, arguments, envParam, replicates rep, agg, t.hasParam replicaName⟩] }
     | .workflow steps execute =>
       let cs := childrenOf ns avail t steps 0 execute
       let bad := (badExecs ns avail t steps 0 execute).map fun j => ErrLoc.tmpl true t.idx (some j)
@@ -302,19 +316,46 @@ def cand (s : Name) : Nat → Name
 def isNameChar (c : Char) : Bool :=
   ('A' ≤ c && c ≤ 'Z') || ('a' ≤ c && c ≤ 'z') || isDigit c || c == '.' || c == '_' || c == '-'
 
-/-- `SignatureNamePattern.fullmatch` without a `stage<N>.` prefix -/
+/-- the `name` group of `SignatureNamePattern`: `[A-Za-z0-9._-]*[A-Za-z_-]+` -/
 def validName (n : Name) : Bool :=
   n.all isNameChar && match n.getLast? with
     | some c => ('A' ≤ c && c ≤ 'Z') || ('a' ≤ c && c ≤ 'z') || c == '_' || c == '-'
     | none => false
 
-/-- repaired naming: first candidate `s, s-I, s-II, …` (from index `k`) that is not in use -/
-def pickName (used : List Name) (s : Name) : Nat → Nat → Option Name
-  | 0, _ => none
-  | fuel + 1, k => if used.contains (cand s k) then pickName used s fuel (k + 1) else some (cand s k)
+/-- value of a run of decimal digits (`int("05") = 5`) -/
+def digitsVal (ds : S) : Nat := ds.foldl (fun acc c => acc * 10 + (c.toNat - 48)) 0
 
-/-- names of the component instances in visit order (`none` = no free candidate within the fuel) -/
-def assignNames : List Name → List Name → Option (List Name)
+/-- a FlowIR component name: `(stage, name)` -/
+abbrev FName := Nat × Name
+
+/-- the optional group `(stage(?P<stage>[0-9]+)\.)` followed by a valid `name` -/
+def stagePrefix (n : Name) : Option FName :=
+  match n with
+  | 's' :: 't' :: 'a' :: 'g' :: 'e' :: r =>
+    let ds := r.takeWhile isDigit
+    match r.dropWhile isDigit with
+    | '.' :: nm => if !ds.isEmpty && validName nm then some (digitsVal ds, nm) else none
+    | _ => none
+  | _ => none
+
+/-- `SignatureNamePattern.fullmatch(name)` → `(int(stage or 0), name)`: the regular expression tries the stage group
+first and falls back to the whole string as the name -/
+def parseName (n : Name) : Option FName :=
+  match stagePrefix n with
+  | some r => some r
+  | none => if validName n then some (0, n) else none
+
+/-- repaired naming: first candidate `s, s-I, s-II, …` (from index `k`) whose parsed `(stage, name)` pair is not in
+use; `none` also when a candidate is not a component name (only possible for `k = 0`) -/
+def pickName (used : List FName) (s : Name) : Nat → Nat → Option FName
+  | 0, _ => none
+  | fuel + 1, k =>
+    match parseName (cand s k) with
+    | none => none
+    | some fn => if used.contains fn then pickName used s fuel (k + 1) else some fn
+
+/-- `(stage, name)` of the component instances in visit order (`none` = no free candidate within the fuel) -/
+def assignNames : List FName → List Name → Option (List FName)
   | _, [] => some []
   | used, s :: r =>
     match pickName used s (used.length + 1) 0 with
@@ -356,7 +397,7 @@ def splitOld (scopes : List Loc) (l : Loc) : Option (Loc × Loc) :=
 
 inductive OTok where
   | lit (s : S)
-  | dref (producer : Name) (fileref : Loc) (method : S)
+  | dref (stage : Nat) (producer : Name) (fileref : Loc) (method : S)
   deriving DecidableEq, Repr
 
 /-- the environment of a compiled component: field absent, the literal `none` (empty), or a dictionary -/
@@ -395,11 +436,13 @@ def envOfOld (params : Env) : Option Name → EnvOld
 
 structure Comp where
   loc : Loc
+  stage : Nat
   name : Name
   args : List OTok
   refs : List OTok
   producers : List Loc
   env : EnvVal := .unset
+  replica : Bool := false
   deriving Repr
 
 def slash (l : Loc) : S := l.foldr (fun x acc => '/' :: x ++ acc) []
@@ -418,26 +461,116 @@ def partialRefs : Val → List Loc
   | .ref l none :: r => l :: partialRefs r
   | _ :: r => partialRefs r
 
-def convTok (names : List (Loc × Name)) (t : Tok) : List OTok :=
+def convTok (names : List (Loc × FName)) (t : Tok) : List OTok :=
   match t with
   | .lit s => [.lit s]
   | .par p => [.lit ("%(".toList ++ p ++ ")s".toList)]
   | .suf path m => [.lit (sufText path m)]
   | .ref l (some m) =>
     match split (names.map (·.1)) l with
-    | some (p, f) => [.dref ((names.lookup p).getD []) f m]
+    | some (p, f) => [.dref ((names.lookup p).getD (0, [])).1 ((names.lookup p).getD (0, [])).2 f m]
     | none => []
   | .ref _ none => []
   | .dict d => [.lit d]
   | .num t => [.lit t]
 
+/-! ## replication
+
+`ScopeStack.can_template_replicate`: a component is a replica when its own `replicate` is set, or when it does not
+aggregate and some producer — found through the output references in its (resolved) parameter values — replicates,
+or does not aggregate and is a replica for the same reason.  `%(replica)s` is then a variable of the runtime, not a
+parameter reference.  (The generated namespaces have at most one output reference per parameter value: the `break`
+out of the scan of one value after an aggregating producer is not modelled.) -/
+
+def findInst (insts : List Inst) (l : Loc) : Option Inst := insts.find? (·.loc == l)
+
+/-- producers of a component instance: the component scopes that are the longest scope prefix of the references in
+its parameter values (complete or partial references alike) -/
+def producersOf (insts : List Inst) (i : Inst) : List Loc :=
+  i.params.flatMap fun a => (refLocs a.2).filterMap fun l => (split (insts.map (·.loc)) l).map (·.1)
+
+/-- the answer without the memo dictionaries: some path of producers from `l`, crossing no aggregating component,
+ends in a component whose `replicate` is set -/
+def repWalk (insts : List Inst) : Nat → Loc → Bool
+  | 0, _ => false
+  | fuel + 1, l =>
+    match findInst insts l with
+    | none => false
+    | some i => i.replicate || (producersOf insts i).any fun p =>
+        match findInst insts p with
+        | none => false
+        | some q => q.replicate || (!q.aggregate && repWalk insts fuel p)
+
+def isReplica (insts : List Inst) (i : Inst) : Bool :=
+  i.replicate || (!i.aggregate && repWalk insts (insts.length + 1) i.loc)
+
+/-- `ScopeStack.replicating_components` / `aggregating_components` (keys whose value is `True`) -/
+structure Memo where
+  rep : List Loc := []
+  agg : List Loc := []
+  deriving Repr, DecidableEq
+
+inductive Scan where
+  | found (m : Memo)
+  | more (m : Memo) (push : List Loc)
+
+/-- the loops over the references of the popped node `s`: a producer that replicates (attribute or memo) ends the
+walk and `s` is memoised as replicating; an aggregating one is memoised and skipped; any other is pushed
+(`push` has the most recently appended location first) -/
+def scan (insts : List Inst) (s : Loc) : Memo → List Loc → List Loc → Scan
+  | m, [], push => .more m push
+  | m, p :: r, push =>
+    match findInst insts p with
+    | none => scan insts s m r push
+    | some q =>
+      if m.rep.contains p || q.replicate then .found { m with rep := s :: m.rep }
+      else if m.agg.contains p || q.aggregate then scan insts s { m with agg := p :: m.agg } r push
+      else scan insts s m r (p :: push)
+
+/-- `while component_locations_to_check: location = ….pop()` with the memo dictionaries threaded through -/
+def walkM (insts : List Inst) : Nat → Memo → List Loc → Bool × Memo
+  | 0, m, _ => (false, m)
+  | _ + 1, m, [] => (false, m)
+  | fuel + 1, m, s :: stack =>
+    match findInst insts s with
+    | none => walkM insts fuel m stack
+    | some i =>
+      if i.replicate then (true, m)
+      else match scan insts s m (producersOf insts i) [] with
+        | .found m' => (true, m')
+        | .more m' push => walkM insts fuel m' (push ++ stack)
+
+def walkFuel (insts : List Inst) : Nat := 16 * (insts.length + 1) * (insts.length + 1)
+
+/-- `can_template_replicate(location of i)` starting from the memo `m` -/
+def canReplicateM (insts : List Inst) (m : Memo) (i : Inst) : Bool × Memo :=
+  if i.replicate then (true, m)
+  else if i.aggregate then (false, { m with agg := i.loc :: m.agg })
+  else walkM insts (walkFuel insts) m [i.loc]
+
+/-- the calls of `digest_dsl_component` over the components `todo` in order, sharing one memo -/
+def replicasM (insts : List Inst) : Memo → List Inst → List Bool
+  | _, [] => []
+  | m, i :: r => (canReplicateM insts m i).1 :: replicasM insts (canReplicateM insts m i).2 r
+
+/-- `ComponentFlowIR.__init__`: a replicating component must not declare a parameter called `replica` -/
+def replicaErrs (insts : List Inst) : List ErrLoc :=
+  insts.filterMap fun i => if isReplica insts i && i.declaresReplica then some (.tmpl false i.tidx none) else none
+
+/-- `replace_parameter_references(is_replica=…)`: `replica` is not looked up for a replica -/
+def maskReplica (rep : Bool) (look : Name → Option Val) : Name → Option Val :=
+  fun p => if rep && p == replicaName then none else look p
+
+/-- some parameter reference other than `%(replica)s` of a replica is present -/
+def strayPar (rep : Bool) (v : Val) : Bool := (paramRefs v).any fun p => !(rep && p == replicaName)
+
 /-- one component: `resolve_parameter_references` on `command.arguments`, then
 `convert_outputreferences_to_datareferences`; `Except` = error locations of this component -/
-def digest (names : List (Loc × Name)) (i : Inst) : Except (List ErrLoc) Comp :=
-  let args0 := merge (substV (fun p => i.params.lookup p) i.arguments)
+def digest (names : List (Loc × FName)) (rep : Bool) (i : Inst) : Except (List ErrLoc) Comp :=
+  let args0 := merge (substV (maskReplica rep fun p => i.params.lookup p) i.arguments)
   -- an unknown parameter makes `_replace_many_parameter_references` raise: the field keeps its text
-  let e1 := if hasPar args0 then [ErrLoc.tmpl false i.tidx none] else []
-  let args := if hasPar args0 then merge i.arguments else args0
+  let e1 := if strayPar rep args0 then [ErrLoc.tmpl false i.tidx none] else []
+  let args := if strayPar rep args0 then merge i.arguments else args0
   if !(partialRefs args).isEmpty then .error (e1 ++ [i.dsl])
   else
     let argRefs := fullRefs args
@@ -448,10 +581,11 @@ def digest (names : List (Loc × Name)) (i : Inst) : Except (List ErrLoc) Comp :
     let e2 := if parPartial.all (fun l => argRefs.any (fun r => r.1 == l)) && all.all (fun r => (split scopes r.1).isSome)
               then [] else [i.dsl]
     if (e1 ++ e2).isEmpty then
-      .ok { loc := i.loc, name := (names.lookup i.loc).getD [], args := args.flatMap (convTok names),
+      .ok { loc := i.loc, stage := ((names.lookup i.loc).getD (0, [])).1, name := ((names.lookup i.loc).getD (0, [])).2,
+            args := args.flatMap (convTok names),
             refs := all.flatMap (fun r => convTok names (.ref r.1 (some r.2))),
             producers := (all.filterMap (fun r => (split scopes r.1).map (·.1))).eraseDups,
-            env := (envOf i.params i.envParam).getD .unset }
+            env := (envOf i.params i.envParam).getD .unset, replica := rep }
     else .error (e1 ++ e2)
 
 inductive Result where
@@ -491,15 +625,15 @@ def envErrs (insts : List Inst) : List ErrLoc :=
 
 def finish (insts : List Inst) : Result :=
   let steps := insts.map fun i => i.loc.getLast?.getD []
-  let badNames := insts.filterMap fun i => if validName (i.loc.getLast?.getD []) then none else some i.dsl
+  let badNames := insts.filterMap fun i => if (parseName (i.loc.getLast?.getD [])).isSome then none else some i.dsl
   -- `digest_dsl_component` runs (and its errors are raised) before the components are named
-  if !(envErrs insts).isEmpty then .invalid 5 (envErrs insts)
+  if !(envErrs insts ++ replicaErrs insts).isEmpty then .invalid 5 (envErrs insts ++ replicaErrs insts)
   else if !badNames.isEmpty then .invalid 3 badNames
   else match assignNames [] steps with
     | none => .outOfFuel
     | some names =>
       let table := (insts.map (·.loc)).zip names
-      let (errs, comps) := collect (insts.map (digest table))
+      let (errs, comps) := collect (insts.map fun i => digest table (isReplica insts i) i)
       if errs.isEmpty then .ok comps else .invalid 4 errs
 
 def entryMissing (t : Template) (args : Env) : Bool :=
@@ -547,7 +681,8 @@ def specVisit (ns : Namespace) : Nat → List Name → Loc → Template → List
   | 0, _, _, _, _ => []
   | fuel + 1, avail, loc, t, chain =>
     match t.body with
-    | .component arguments envParam => [⟨loc, merge (substV (valueOf chain) arguments), envParam.bind (valueOf chain)⟩]
+    | .component arguments envParam _ _ =>
+      [⟨loc, merge (substV (valueOf chain) arguments), envParam.bind (valueOf chain)⟩]
     | .workflow steps execute =>
       (childrenOf ns avail t steps 0 execute).flatMap fun c =>
         specVisit ns fuel (avail.erase c.callee.name) (loc ++ [c.target]) c.callee (⟨loc, c.raw⟩ :: chain)
